@@ -132,6 +132,7 @@ PLAN["C12"] = dict(
 from pyvc import tables as _tables, detcheck as _detcheck, hashcheck as _hashcheck, importcheck as _importcheck, rgcheck as _rgcheck
 from .logger_contracts import LOGGER_C17, LOGGER_SIDECARS
 PLAN["C12"]["extra"] = [_importcheck.check, _importcheck.check_reserve]
+PLAN["C11"]["extra"] = [_importcheck.check_layout_pass]
 PLAN["C12"]["level_text"] = ("Mixed. SMT-discharged contracts (pyvc/z3, real source re-read on every run) for handle_host_id, handle_module_id, validate_msg_id and check_duplicate_name over the five shared "
                             "namespaces: the registries stay injective, acceptance implies no id / name clash anywhere in the import closure, each error is raised only when that clash exists, ranges "
                             "are enforced. Two further contracts are decided by a syntactic dataflow analysis of one function each, not by SMT, and are labelled so in the evidence (by_backend "
